@@ -205,11 +205,17 @@ func gqlServer(kind string, ns int64) http.Handler {
 // transportGoroutines counts goroutines that are inside the streaming
 // transports (keep-alive writer, aggregator ticker, the handlers themselves).
 func transportGoroutines() (int, string) {
+	n, which, _ := transportStacks()
+	return n, which
+}
+
+func transportStacks() (int, string, string) {
 	buf := make([]byte, 1<<20)
 	buf = buf[:runtime.Stack(buf, true)]
 	n := 0
-	var which []string
+	var which, stacks []string
 	for _, g := range strings.Split(string(buf), "\n\n") {
+		before := n
 		switch {
 		case strings.Contains(g, "(*sseConnection).keepAlive"):
 			n++
@@ -224,8 +230,11 @@ func transportGoroutines() (int, string) {
 			n++
 			which = append(which, "MultipartMixed.Do")
 		}
+		if n > before {
+			stacks = append(stacks, g)
+		}
 	}
-	return n, strings.Join(which, ",")
+	return n, strings.Join(which, ","), strings.Join(stacks, "\n\n")
 }
 
 func main() {
@@ -292,8 +301,11 @@ func main() {
 			}
 			r.mu.Unlock()
 		}
-		n, which := transportGoroutines()
+		n, which, stacks := transportStacks()
 		out["tg"], out["tg_which"] = n, which
+		if req.URL.Query().Get("stacks") != "" {
+			out["tg_stacks"] = stacks
+		}
 		_ = json.NewEncoder(w).Encode(out)
 	})
 	mux.HandleFunc("/ctl/release", func(w http.ResponseWriter, req *http.Request) {
